@@ -21,6 +21,7 @@ pub fn run(a: &Args) -> Option<Report> {
     gauges_commutative(&mut rep, &mut r, a, miri);
     gauges_linearizable(&mut rep, &mut r, a, miri);
     histograms(&mut rep, &mut r, a, miri);
+    generational(&mut rep, &mut r, a, miri);
     values_and_noop(&mut rep, &mut r);
     Some(rep)
 }
@@ -332,6 +333,66 @@ fn histograms(rep: &mut Report, r: &mut Rng, a: &Args, miri: bool) {
     let _ = Kind::Counter;
 }
 
+/// Handles backed by the generational storage the Prometheus exporter uses (`Generational<Arc<AtomicU64>>`): several
+/// threads update clones of one handle at the same time; every update is applied exactly once, also batches
+/// (`record_many` incl. a count of 0) recorded through the generational histogram handle.
+fn generational(rep: &mut Report, r: &mut Rng, a: &Args, miri: bool) {
+    use metrics_util::registry::{AtomicStorage, GenerationalStorage, Storage};
+    use metrics::{Key, HistogramFn};
+    let rounds = if miri { 1 } else { a.budget(20, 2000) };
+    for _ in 0..rounds {
+        let st = GenerationalStorage::new(AtomicStorage);
+        let key = Key::from_name("g");
+        let gc = st.counter(&key);
+        let gg = st.gauge(&key);
+        let gh = st.histogram(&key);
+        let (c, g, h): (Counter, Gauge, Histogram) = (gc.clone().into(), gg.clone().into(), gh.clone().into());
+        let nthreads = if miri { 2 } else { 2 + r.usize(6) };
+        let per = if miri { 10 } else { *r.pick(&[200usize, 5000, 40_000]) };
+        let hs: Vec<_> = (0..nthreads)
+            .map(|_| {
+                let (c, g, h) = (c.clone(), g.clone(), h.clone());
+                std::thread::spawn(move || {
+                    for i in 0..per {
+                        c.increment(3);
+                        g.increment(2.0);
+                        if i % 4 == 0 {
+                            g.decrement(-1.0); // a negative amount: adds 1
+                        }
+                        if i % 64 == 0 {
+                            h.record(1.0);
+                        }
+                    }
+                })
+            })
+            .collect();
+        for t in hs {
+            let _ = t.join();
+        }
+        // batches through the generational histogram handle
+        h.record_many(2.0, 3);
+        h.record_many(5.0, 0);
+        gh.record_many(7.0, 0);
+        gh.record_many(7.0, 2);
+        let n = (nthreads * per) as u64;
+        let quarter = (nthreads * ((per + 3) / 4)) as f64;
+        let cv = gc.get_inner().load(Ordering::SeqCst);
+        let gv = f64::from_bits(gg.get_inner().load(Ordering::SeqCst));
+        let hv = gh.get_inner().data();
+        let exp_h = nthreads * ((per + 63) / 64) + 3 + 2;
+        rep.case(mix(n, nthreads as u64 + 900), true);
+        if cv != 3 * n {
+            rep.violation("C04:counter-increments-not-exactly-once:generational-handle", jo! {"what" => "concurrent increments through clones of one generational counter handle do not add up", "threads" => nthreads, "increments_each" => per, "expected" => 3 * n, "got" => cv});
+        }
+        if gv != 2.0 * n as f64 + quarter {
+            rep.violation("C04:gauge-updates-not-exactly-once:generational-handle", jo! {"what" => "concurrent increment(2.0) / decrement(-1.0) through clones of one generational gauge handle do not add up", "threads" => nthreads, "ops_each" => per, "expected" => 2.0 * n as f64 + quarter, "got" => gv});
+        }
+        if hv.len() != exp_h {
+            rep.violation("C04:histogram-samples-not-exactly-once:generational-handle", jo! {"what" => "samples recorded through a generational histogram handle (record, record_many incl. count 0) are not each present exactly once", "expected" => exp_h, "got" => hv.len()});
+        }
+    }
+}
+
 fn values_and_noop(rep: &mut Report, r: &mut Rng) {
     // no handle operation panics for any value; no-op handles have no effect
     let vals_f = [0.0f64, -0.0, f64::NAN, f64::INFINITY, f64::NEG_INFINITY, f64::MAX, f64::MIN, 1e-320, 1.0];
@@ -403,7 +464,7 @@ fn values_and_noop(rep: &mut Report, r: &mut Rng) {
         let mut model = 0.0f64;
         let mut hist = Vec::new();
         for _ in 0..(1 + r.usize(8)) {
-            let v = *r.pick(&[0.5f64, 1.0, 2.0, 8.0, 64.0]);
+            let v = *r.pick(&[0.5f64, 1.0, 2.0, 8.0, 64.0, -0.5, -4.0]);
             match r.below(3) {
                 0 => {
                     g.increment(v);
